@@ -79,7 +79,7 @@ impl<TS: TimeSource> BeaconSerializer<TS> {
             pos += 1;
             if pos == 16 {
                 pos = 0;
-                iter += 1;
+                iter = iter.wrapping_add(1);
                 mask = self.get_keystream(type_, seed, iter);
             }
         }
